@@ -18,6 +18,7 @@ type FSNode struct {
 	data    []*Term
 	removed bool
 	mode    uint64
+	link    string // symbolic link: absolute concrete target path ("" for files and directories)
 }
 
 type FSEffect struct {
@@ -132,7 +133,20 @@ func (it *Interp) fsFault(op string) *IfaceV {
 	return nil
 }
 
+// fsFind follows a symbolic link at the final path component (as open/stat/readfile do); fsFindNoFollow
+// is the lstat view. Links inside a path (a directory reached through a link) are not modelled.
 func (it *Interp) fsFind(p *StrV) *FSNode {
+	n := it.fsFindNoFollow(p)
+	for hops := 0; n != nil && n.link != "" && hops < 8; hops++ {
+		n = it.fsFindNoFollow(it.constString(n.link))
+	}
+	if n != nil && n.link != "" {
+		return nil // too many levels of symbolic links
+	}
+	return n
+}
+
+func (it *Interp) fsFindNoFollow(p *StrV) *FSNode {
 	for _, n := range it.fs.nodes {
 		if n.removed {
 			continue
@@ -259,12 +273,12 @@ func (it *Interp) fsRename(a, b *StrV) *IfaceV {
 	if e := it.fsFault("rename"); e != nil {
 		return e
 	}
-	n := it.fsFind(ca)
+	n := it.fsFindNoFollow(ca)
 	if n == nil {
 		return it.fsErr("notexist", "rename: no such file or directory")
 	}
 	it.fsLog("rename", true, ca, cb, nil, nil)
-	if d := it.fsFind(cb); d != nil && d != n {
+	if d := it.fsFindNoFollow(cb); d != nil && d != n {
 		d.removed = true
 	}
 	n.path = cb
@@ -281,7 +295,7 @@ func (it *Interp) fsRemove(p *StrV, all bool) *IfaceV {
 		kind = "removeall"
 	}
 	it.fsLog(kind, true, cp, nil, nil, nil)
-	n := it.fsFind(cp)
+	n := it.fsFindNoFollow(cp)
 	if n == nil {
 		if all {
 			return nil
@@ -419,6 +433,9 @@ func osModel(name string) interceptFn {
 				return TupleV{&IfaceV{}, e}
 			}
 			n := it.fsFind(cp)
+			if name == "os.Lstat" {
+				n = it.fsFindNoFollow(cp)
+			}
 			if n == nil {
 				return TupleV{&IfaceV{}, it.fsErr("notexist", "stat: no such file or directory")}
 			}
@@ -662,11 +679,19 @@ func (it *Interp) engineMethodExtra(iv *IfaceV, name string) Value {
 		fi := iv.V.(*FSInfo)
 		switch name {
 		case "Size":
-			return &EngineFunc{"Size", func(it *Interp, a []Value) Value { return it.ctx.BV(uint64(len(fi.node.data)), 64) }}
+			return &EngineFunc{"Size", func(it *Interp, a []Value) Value {
+				if fi.node.link != "" {
+					return it.ctx.BV(uint64(len(fi.node.link)), 64) // lstat of a link: the length of its target text
+				}
+				return it.ctx.BV(uint64(len(fi.node.data)), 64)
+			}}
 		case "IsDir":
 			return &EngineFunc{"IsDir", func(it *Interp, a []Value) Value { return it.ctx.Bool(fi.node.dir) }}
 		case "Mode":
 			return &EngineFunc{"Mode", func(it *Interp, a []Value) Value {
+				if fi.node.link != "" {
+					return it.ctx.BV(1<<27|0777, 32)
+				}
 				if fi.node.dir {
 					return it.ctx.BV(1<<31|0755, 32)
 				}
@@ -698,6 +723,32 @@ func (it *Interp) engineMethodExtra(iv *IfaceV, name string) Value {
 	}
 	return nil
 }
+
+// harness: vTempSymlink(name, target string) string — a symbolic link vtmp/name -> target (absolute path)
+func hTempSymlink(it *Interp, fn *ssa.Function, a []Value) Value {
+	name, ok1 := a[0].(*StrV).concrete()
+	target, ok2 := a[1].(*StrV).concrete()
+	if !ok1 || !ok2 {
+		it.inconclusive("symbolic link with a symbolic name or target")
+	}
+	dir := "/vtmp"
+	if it.fsFindNoFollow(it.constString(dir)) == nil {
+		it.fs.nodes = append(it.fs.nodes, &FSNode{path: it.constString(dir), dir: true})
+	}
+	parts := strings.Split(name, "/")
+	cur := dir
+	for _, part := range parts[:len(parts)-1] {
+		cur += "/" + part
+		if it.fsFindNoFollow(it.constString(cur)) == nil {
+			it.fs.nodes = append(it.fs.nodes, &FSNode{path: it.constString(cur), dir: true})
+		}
+	}
+	it.fs.own[dir+"/"+parts[0]] = true
+	it.fs.nodes = append(it.fs.nodes, &FSNode{path: it.constString(dir + "/" + name), link: target})
+	return it.constString(dir + "/" + name)
+}
+
+func init() { harnessAPI["vTempSymlink"] = hTempSymlink }
 
 // harness: vTempFile(name string, content []byte) string — creates a file in the FS model
 func hTempFile(it *Interp, fn *ssa.Function, a []Value) Value {
@@ -910,6 +961,9 @@ func (it *Interp) dirEntryMethod(d *FSDirEntry, name string) Value {
 		}}
 	case "Type":
 		return &EngineFunc{"Type", func(it *Interp, a []Value) Value {
+			if d.node.link != "" {
+				return it.ctx.BV(1<<27, 32)
+			}
 			if d.node.dir {
 				return it.ctx.BV(1<<31, 32)
 			}
